@@ -185,7 +185,7 @@ def install_ay_monitor():
 
 def run(shard, spec):
     install_ay_monitor()
-    nprog = 64 if shard.tier == 'quick' else 2400
+    nprog = 160 if shard.tier == 'quick' else 2400
     cases = list(range(spec['shard'], nprog, spec['of']))
     if spec['shard'] == 0:
         cases.insert(0, 'witness')         # the listed finding's witness is replayed first, deterministically
